@@ -59,6 +59,8 @@ pub struct ExecOpts {
     /// let the active memtable fill up until a commit's apply hits ArenaFull and rotates implicitly (known finding
     /// F03 lives there); when false the interpreter rotates pre-emptively so that this never happens
     pub allow_arena_full: bool,
+    /// never generate two writes of one key with equal timestamps
+    pub no_ties: bool,
 }
 
 impl Default for ExecOpts {
@@ -73,6 +75,7 @@ impl Default for ExecOpts {
             check_vlog_files: false,
             single_write_per_key: false,
             allow_arena_full: false,
+            no_ties: false,
         }
     }
 }
@@ -127,6 +130,9 @@ struct Slot {
 pub struct Exec<'a> {
     case: &'a Case,
     cfg: Cfg,
+    /// the case's own configuration: value sizes and per-transaction budgets are derived from it so that twins
+    /// running under a different physical configuration write exactly the same logical history
+    vcfg: Cfg,
     opts: ExecOpts,
     dir: PathBuf,
     db: PathBuf,
@@ -143,6 +149,7 @@ pub struct Exec<'a> {
     tag_counter: u32,
     active_bytes: usize,
     arena_rotations: u64,
+    key_window: Option<(u16, u16)>,
 }
 
 type R<T> = std::result::Result<T, Failure>;
@@ -591,9 +598,12 @@ impl<'a> Exec<'a> {
                 });
                 self.stats.inc("begin");
             }
+            Step::KeyWindow { lo, len } => {
+                self.key_window = if *len == 65535 { None } else { Some((*lo, *len)) };
+            }
             Step::Write { slot, w } => {
                 let s = *slot as usize % nslots;
-                let key = case.key(w.k).to_vec();
+                let key = case.wkey(w.k, self.key_window).to_vec();
                 self.do_write(s, key, w.op, w.ts)?;
             }
             Step::WriteRaw { slot, key, op } => {
@@ -855,6 +865,8 @@ impl<'a> Exec<'a> {
             }
             Step::Reopen => {
                 if self.opts.p0 {
+                    // keep the twin's transaction slots in step with the plan that really reopens
+                    self.drop_all_slots();
                     return Ok(());
                 }
                 self.do_reopen("reopen").await?;
@@ -1147,7 +1159,7 @@ impl<'a> Exec<'a> {
     }
 
     fn do_write(&mut self, s: usize, key: Key, wop: WOp, ts_hint: Option<u64>) -> R<()> {
-        let cfg = self.cfg.clone();
+        let cfg = self.vcfg.clone();
         let single = self.opts.single_write_per_key;
         let Some(sl) = self.slots[s].as_mut() else { return Ok(()) };
         if sl.cursor.is_some() {
@@ -1168,7 +1180,11 @@ impl<'a> Exec<'a> {
         }
         // explicit timestamps only with versioning, and never for replace (no API)
         let ts = if cfg.versioning && !matches!(op, Op::Replace(_)) {
+            let barrier_near = self.opts.no_ties || !matches!(op, Op::Set(_)) || !matches!(self.model.latest_op(self.model.len(), &key), Some(Op::Set(_)) | None);
             ts_hint.map(|d| {
+                // equal timestamps are only generated between two plain sets (the semantics of a tie that involves a
+                // delete, a soft delete or a replace are unspecified)
+                let d = if d == 0 && barrier_near { 1 } else { d };
                 let t = self.clock.peek() + d;
                 self.clock.advance(d);
                 t
@@ -1336,18 +1352,20 @@ impl<'a> Exec<'a> {
         let mut bytes = 0usize;
         let mut n = 0u32;
         for w in ws {
-            let key = case.key(w.k).to_vec();
-            let op = w.op.resolve(&self.cfg);
+            let key = case.wkey(w.k, self.key_window).to_vec();
+            let op = w.op.resolve(&self.vcfg);
             if self.opts.single_write_per_key && pend.contains_key(&key) {
                 continue;
             }
             let sz = key.len() + op.value().map(|v| v.len as usize).unwrap_or(0) + 400;
-            if bytes + sz > self.cfg.txn_budget() {
+            if bytes + sz > self.vcfg.txn_budget() {
                 break;
             }
             bytes += sz;
             let ts = if self.cfg.versioning && !matches!(op, Op::Replace(_)) {
+                let barrier_near = self.opts.no_ties || !matches!(op, Op::Set(_)) || !matches!(self.model.latest_op(self.model.len(), &key), Some(Op::Set(_)) | None);
                 w.ts.map(|d| {
+                    let d = if d == 0 && barrier_near { 1 } else { d };
                     let t = self.clock.peek() + d;
                     self.clock.advance(d);
                     t
@@ -1419,6 +1437,7 @@ pub async fn run_case(case: &Case, dir: &Path, opts: &ExecOpts) -> Outcome {
     let mut ex = Exec {
         case,
         cfg,
+        vcfg: case.cfg.clone().normalised(),
         opts: opts.clone(),
         dir: dir.to_path_buf(),
         db,
@@ -1435,6 +1454,7 @@ pub async fn run_case(case: &Case, dir: &Path, opts: &ExecOpts) -> Outcome {
         tag_counter: 0,
         active_bytes: 0,
         arena_rotations: 0,
+        key_window: None,
     };
     let failure = run_inner(&mut ex).await.err();
     // best-effort teardown
